@@ -27,7 +27,10 @@ import arim.ray
 
 drv = arimgen.Driver(chk.ocaml_driver("C06"))
 rng = chk.rng
-Q = chk.tier == "quick"
+# second tie: the per-interface virtual-source coefficients (forward and reverse) are cut out of the current source,
+# translated and checked convertible with Model.Beamspread.gamma_of / rev_gamma_of; a broken tie deepens the run
+_ties = chk.translation_tie()
+Q = chk.tier == "quick" and all(v == "ok" for v in _ties.values())
 TOL = 1e-11
 lines, meta = [], []
 nsetups = 40 if Q else 300
